@@ -120,6 +120,98 @@ def from_ast(n):
     raise Outside(type(n).__name__)
 
 
+# ---------------------------------------------------------------- statements (Model/RewriteStmt.lean)
+
+
+def gen_block(rng, depth, n=None):
+    out = []
+    for _ in range(n or rng.randint(1, 3)):
+        r = rng.random()
+        if depth <= 0 or r < 0.3:
+            out.append(["assign", rng.choice(USER), gen(rng, rng.randint(1, 3))])
+        elif r < 0.45:
+            out.append(["expr", gen(rng, rng.randint(1, 3))])
+        elif r < 0.55:
+            out.append(["ret", gen(rng, rng.randint(1, 2))])
+        elif r < 0.7:
+            out.append(["ite", gen(rng, rng.randint(0, 2)), gen_block(rng, depth - 1), gen_block(rng, depth - 1) if rng.random() < 0.6 else []])
+        elif r < 0.8:
+            out.append(["while", gen(rng, rng.randint(0, 2)), gen_block(rng, depth - 1)])
+        elif r < 0.9:
+            out.append(["try", gen_block(rng, depth - 1), gen_block(rng, depth - 1)])
+        elif r < 0.95:
+            out.append(["raise", rng.randint(0, 5)])
+        else:
+            out.append(["pass"])
+    return out
+
+
+def block_src(b, ind):
+    pad = " " * ind
+    lines = []
+    for st in b:
+        k = st[0]
+        if k == "assign":
+            lines.append(f"{pad}{st[1]} = {to_src(st[2])}")
+        elif k == "expr":
+            lines.append(f"{pad}{to_src(st[1])}")
+        elif k == "ret":
+            lines.append(f"{pad}return {to_src(st[1])}")
+        elif k == "ite":
+            lines.append(f"{pad}if {to_src(st[1])}:")
+            lines += block_src(st[2], ind + 4)
+            if st[3]:
+                lines.append(f"{pad}else:")
+                lines += block_src(st[3], ind + 4)
+        elif k == "while":
+            lines.append(f"{pad}while {to_src(st[1])}:")
+            lines += block_src(st[2], ind + 4)
+        elif k == "try":
+            lines.append(f"{pad}try:")
+            lines += block_src(st[1], ind + 4)
+            lines.append(f"{pad}finally:")
+            lines += block_src(st[2], ind + 4)
+        elif k == "raise":
+            lines.append(f"{pad}raise EXN({st[1]})")
+        else:
+            lines.append(f"{pad}pass")
+    return lines
+
+
+def block_from_ast(stmts):
+    out = []
+    for n in stmts:
+        if isinstance(n, ast.Assign) and len(n.targets) == 1 and isinstance(n.targets[0], ast.Name):
+            out.append(["assign", n.targets[0].id, from_ast(n.value)])
+        elif isinstance(n, ast.Expr):
+            out.append(["expr", from_ast(n.value)])
+        elif isinstance(n, ast.Return):
+            out.append(["ret", from_ast(n.value)])
+        elif isinstance(n, ast.If):
+            out.append(["ite", from_ast(n.test), block_from_ast(n.body), block_from_ast(n.orelse)])
+        elif isinstance(n, ast.While) and not n.orelse:
+            out.append(["while", from_ast(n.test), block_from_ast(n.body)])
+        elif isinstance(n, ast.Try) and not n.handlers and not n.orelse:
+            out.append(["try", block_from_ast(n.body), block_from_ast(n.finalbody)])
+        elif isinstance(n, ast.Raise) and isinstance(n.exc, ast.Call) and getattr(n.exc.func, "id", None) == "EXN":
+            out.append(["raise", n.exc.args[0].value])
+        elif isinstance(n, ast.Pass):
+            out.append(["pass"])
+        else:
+            raise Outside(type(n).__name__)
+    return out
+
+
+def real_rewrite_block(b):
+    from ovld.recode import NameConverter
+
+    src = "def m(x, y, z):\n" + "\n".join(block_src(b, 4)) + "\n"
+    tree = ast.parse(src)
+    conv = NameConverter(anal=FakeAnalysis(), recurse_sym="recurse", call_next_sym="call_next", ovld_mangled="OVLD", map_mangled="MAP", code_mangled="CODE")
+    new = conv.visit(tree)
+    return block_from_ast(new.body[0].body)
+
+
 class FakeAnalysis:
     is_method = False
     # a declaration order of the keyword-only parameters that differs from the order at most call sites
@@ -168,7 +260,24 @@ def run(seed, n):
                 stats.setdefault("unexpected", []).append({"layer": "H", "what": "the rewriter raised on an expression of the modelled subset", "error": f"{type(ex).__name__}: {ex}"[:200], "src": to_src(e)})
         exprs.append(e)
         reals.append(r)
-    res = run_driver([{"layer": "H", "exprs": exprs}])[0]
+    # blocks of statements
+    blocks, breals = [], []
+    stats["blocks"] = 0
+    for _ in range(max(1, n // 4)):
+        b = gen_block(rng, 2)
+        try:
+            r = real_rewrite_block(b)
+        except Outside:
+            stats["outside"] += 1
+            continue
+        except Exception as ex:  # noqa
+            if type(ex).__name__ != "UsageError":
+                stats.setdefault("unexpected", []).append({"layer": "H", "what": "the rewriter raised on a block of the modelled subset", "error": f"{type(ex).__name__}: {ex}"[:200], "src": "\n".join(block_src(b, 0))})
+            continue
+        stats["blocks"] += 1
+        blocks.append(b)
+        breals.append(r)
+    res = run_driver([{"layer": "H", "exprs": exprs, "blocks": blocks}])[0]
     diffs = list(stats.pop("unexpected", []))[:3]
     if "error" in res:
         return stats, [{"kind": "driver-error", "detail": res["error"]}]
@@ -177,6 +286,9 @@ def run(seed, n):
             continue
         if m != r:
             diffs.append({"layer": "H", "expr": e, "src": to_src(e), "model": m, "impl": r})
+    for b, r, m in zip(blocks, breals, res.get("rwS", [])):
+        if m != r:
+            diffs.append({"layer": "H", "what": "rewritten block of statements", "src": "\n".join(block_src(b, 0)), "model": m, "impl": r})
     return stats, diffs
 
 
